@@ -381,6 +381,13 @@ def main(chk, replay=None):
                   3: dict(explicit=False, stmts=[["batch", 2, [0, 1, 2], "i", False, False, False, False, Z], ["call", 1, 5, "i", False, False, False, False, Z]], const=3,
                           **{"raise": [0, 0, 0, 0]})}),
     ]
+    corpus += [
+        # a sub-call made with further calls prevented, whose body attempts (and survives) a call that the root makes itself
+        # afterwards: whether that call is in the store beforehand or not, it is refused beneath the prevented call and recorded nowhere there
+        dict(fns={1: leaf(), 2: dict(explicit=False, stmts=[["call", 1, 0, "i", False, False, True, False, Z]], const=2, **{"raise": [0, 0, 0, 0]}),
+                  3: dict(explicit=False, stmts=[["call", 2, 0, "i", False, True, True, False, Z], ["call", 1, 0, "i", False, False, False, False, Z],
+                                                 ["batch", 2, [0, 1], "i", False, True, True, False, Z]], const=3, **{"raise": [0, 0, 0, 0]})}),
+    ]
     concurrent_subcall(chk)
     for fl in (mutable_args_scenario(chk) + typed_args_scenario(chk) + lost_result_scenario(chk))[:3]:
         chk.violation({"what": "provenance (%s): %s" % (fl["scenario"], fl["clause"]), "class": {"clause": fl["clause"], "scenario": fl["scenario"]},
